@@ -26,7 +26,86 @@ BUDGET = {'quick': 240, 'thorough': 1500}
 
 def plan(tier, seed):
     n = 4000 if tier == 'quick' else 100000
-    return [{'seed': seed, 'idx': i} for i in range(n)]
+    return ([{'seed': seed, 'idx': i} for i in range(n)] +
+            [{'kind': 'live', 'seed': seed, 'idx': i} for i in range(2 if tier == 'quick' else 12)])
+
+
+CASE_TIMEOUT = 120
+
+
+def live_case(spec, res):
+    """the start order on a real circusd (which runs its own loop, unlike an arbiter embedded in a program): priority
+    order, warm-up pacing, and watchers with autostart disabled left alone"""
+    import glob
+    import os
+    import re
+    import time
+    from vlib import live
+    rnd = rng_for(spec['seed'], 'C19-live', spec['idx'])
+    nw = rnd.randint(3, 5)
+    ws = []
+    for i in range(nw):
+        ws.append({'name': 'w%d' % i, 'priority': rnd.choice([0, 1, 2, 5, 9]), 'np': rnd.choice([1, 2]),
+                   'warmup': rnd.choice([0, 0, 1]), 'autostart': rnd.random() < .6})
+    # at least one watcher that is started, with a warm-up pause, before a watcher that must not be started
+    ws[0].update(priority=9, autostart=True, np=2, warmup=1)
+    ws[1].update(priority=rnd.choice([0, 5]), autostart=False)
+    d = live.Daemon('', strace=False)
+    txt = d.header(check_delay=0.5)
+    for w_ in ws:
+        txt += ('[watcher:%s]\ncmd = %s\nnumprocesses = %d\npriority = %d\nwarmup_delay = %d\nautostart = %s\n'
+                'graceful_timeout = 0.3\ncopy_env = True\n\n'
+                % (w_['name'], live.worker_cmd({'log': '@LOG@', 'tagw': w_['name']}), w_['np'], w_['priority'], w_['warmup'],
+                   w_['autostart']))
+    d.ini = txt.replace('@DIR@', d.dir).replace('@LOG@', d.logdir)
+    with open(d.ini_path, 'w') as f:
+        f.write(d.ini)
+    try:
+        d.start()
+        if not d.wait_ready(20):
+            res.inconclusive.append('live: daemon not ready: ' + d.output()[-200:])
+            return
+        want = sum(w_['np'] for w_ in ws if w_['autostart'])
+        if not d.workers_up(want, 30):
+            res.inconclusive.append('live: %d workers expected, fewer came up' % want)
+            return
+        time.sleep(1.5)                  # three periodic checks
+        table = {}
+        for pid, state, stt in d.children():
+            try:
+                cmd = open('/proc/%d/cmdline' % pid, 'rb').read().decode('utf8', 'replace')
+            except OSError:
+                continue
+            m = re.search(r'"tagw": "(\w+)"', cmd)
+            if m:
+                up = os.path.join(d.logdir, '%d.up' % pid)
+                table.setdefault(m.group(1), []).append((float(open(up).read().split()[0]) if os.path.exists(up) else None, pid))
+        statuses = d.call('status').get('statuses', {})
+        res.obs['live_daemon_starts_judged'] += 1
+        for w_ in ws:
+            n = w_['name']
+            if not w_['autostart']:
+                res.obs['live_autostart_false_watchers_judged'] += 1
+                if table.get(n) or statuses.get(n) != 'stopped':
+                    res.violation('C19/live:autostart-false-watcher-started-by-the-daemon-start',
+                                  'watcher %s has autostart = False; after the daemon start it reports %s and has the '
+                                  'workers %s (watchers: %s)' % (n, statuses.get(n), table.get(n),
+                                                                  [(x['name'], x['priority'], x['autostart']) for x in ws]))
+        # priority order: every worker of a watcher of higher priority came up before those of a lower one
+        started = sorted((w_ for w_ in ws if w_['autostart']), key=lambda x: -x['priority'])
+        for a, b in zip(started, started[1:]):
+            ta = [t for t, _ in table.get(a['name'], []) if t is not None]
+            tb = [t for t, _ in table.get(b['name'], []) if t is not None]
+            if a['priority'] > b['priority'] and ta and tb:
+                res.obs['live_priority_pairs_judged'] += 1
+                if min(tb) < max(ta) - 0.05:
+                    res.violation('C19/live:lower-priority-watcher-started-first',
+                                  'workers of %s (priority %d) came up at %s, those of %s (priority %d) at %s'
+                                  % (a['name'], a['priority'], sorted(ta), b['name'], b['priority'], sorted(tb)))
+        res.nontrivial(repr(('live', [(x['priority'], x['np'], x['warmup'], x['autostart']) for x in ws])))
+        res.sample = res.sample or {'live': True, 'watchers': ws, 'statuses': statuses}
+    finally:
+        d.cleanup()
 
 
 def gen_spec(rnd):
@@ -62,6 +141,11 @@ def gen_spec(rnd):
 
 def run_case(spec):
     res = CaseResult()
+    if spec.get('kind') == 'live':
+        live_case(spec, res)
+        for v in res.viol:
+            v['spec'] = spec
+        return res
     h = spec if 'watchers' in spec else gen_spec(rng_for(spec['seed'], 'C19', spec['idx']))
     w = simhist.new_world(h)
     nv = len(res.viol)
